@@ -760,7 +760,9 @@ LEVEL_TEXT = ("Machine-checked Coq theorems over a statement-by-statement Gallin
               "net/netip address parsers), compiledRule.Match, the matchers, compiledRuleSetImpl.Match with its decision cache and "
               "aclEngine.handle: for every rule list, every query and every history of queries, under every eviction behaviour of the "
               "cache, each answer is the outbound and hijack address of the first rule in file order whose pattern, protocol and port "
-              "range match (default when none), invariant under case and trailing dots of the name. The model is tied to /repo on "
+              "range match (default when none), invariant under case and trailing dots of the name; the same for overlapping callers "
+              "(LTS of the atomic cache sections Get / Add-of-the-final-result of any number of Match calls under every schedule). "
+              "The model is tied to /repo on "
               "every run by regenerated constants and a differential run of the Go code against the model (vm_compute in the kernel) "
               "and against an independent reference evaluator and a never-queried rule set inside the harness.")
 LEVEL_NOTE = ("Trusted: Coq kernel + vm_compute; hand-written model (tie is sampled differential testing + regenerated Params); python/Go glue. "
